@@ -1,19 +1,19 @@
 CONSTANTS
   Thr16 = 40
-  ThrN = 1
+  ThrN = 0
   Thr32 = 6
   MaxFiles = 2
   MaxChunks = 2
   MaxX = 2
   EmitEdges = FALSE
-  MaxRounds = 2
-SPECIFICATION ASpec
-VIEW AView
+  NeedZ64C <- NeedZ64
+SPECIFICATION Spec
+VIEW View
 INVARIANT ModeConsistent
 INVARIANT LayoutWellFormed
+INVARIANT Aligned
 INVARIANT NoTruncation
 INVARIANT NoWrappedSizes
-INVARIANT NoStaleTail
-INVARIANT AppendRoundTrip
-PROPERTY AppendKeeps
+INVARIANT ClosedReports
+PROPERTY ClosedEntriesImmutable
 CHECK_DEADLOCK FALSE
